@@ -15,6 +15,7 @@ import (
 	"google.golang.org/grpc"
 	"google.golang.org/grpc/codes"
 	"google.golang.org/grpc/credentials/insecure"
+	"google.golang.org/grpc/metadata"
 	"google.golang.org/grpc/status"
 	"google.golang.org/grpc/test/bufconn"
 
@@ -37,6 +38,7 @@ type Sys struct {
 	NSC                     rts.NamespacesServiceClient
 	Syntax                  opl.SyntaxServiceClient
 	servers                 []*grpc.Server
+	Net                     string // tenant (network id) the next requests are issued for ("": the registry's own)
 	conns                   []*grpc.ClientConn
 }
 
@@ -72,6 +74,13 @@ func NewSys(env *Env) *Sys {
 	s.WriteC = rts.NewWriteServiceClient(wc)
 	s.Syntax = opl.NewSyntaxServiceClient(oc)
 	return s
+}
+
+func (s *Sys) ctx() context.Context {
+	if s.Net != "" {
+		return metadata.AppendToOutgoingContext(s.Env.Ctx, netHeader, s.Net)
+	}
+	return s.Env.Ctx
 }
 
 func (s *Sys) Close() {
@@ -183,6 +192,9 @@ func (s *Sys) RESTRaw(h http.Handler, method, target string, body []byte) (resp 
 		req.Body = http.NoBody
 	}
 	req.RequestURI = target
+	if s.Net != "" {
+		req.Header.Set(netHeader, s.Net)
+	}
 	rec := httptest.NewRecorder()
 	func() {
 		defer func() {
@@ -431,7 +443,7 @@ func (s *Sys) Transact(ds []Delta) Resp {
 		}
 		req.RelationTupleDeltas = append(req.RelationTupleDeltas, &rts.RelationTupleDelta{Action: a, RelationTuple: d.T.Proto()})
 	}
-	_, err := s.WriteC.TransactRelationTuples(s.Env.Ctx, req)
+	_, err := s.WriteC.TransactRelationTuples(s.ctx(), req)
 	return grpcResp(err)
 }
 
@@ -440,7 +452,7 @@ func (s *Sys) DeleteREST(q Query) Resp {
 }
 
 func (s *Sys) DeleteGRPC(q Query) Resp {
-	_, err := s.WriteC.DeleteRelationTuples(s.Env.Ctx, &rts.DeleteRelationTuplesRequest{RelationQuery: q.Proto()})
+	_, err := s.WriteC.DeleteRelationTuples(s.ctx(), &rts.DeleteRelationTuplesRequest{RelationQuery: q.Proto()})
 	return grpcResp(err)
 }
 
@@ -475,7 +487,7 @@ func (s *Sys) ListREST(q Query, size int, token string, setSize bool) (Resp, *Pa
 }
 
 func (s *Sys) ListGRPC(q Query, size int, token string) (Resp, *Page) {
-	res, err := s.ReadC.ListRelationTuples(s.Env.Ctx, &rts.ListRelationTuplesRequest{RelationQuery: q.Proto(), PageSize: int32(size), PageToken: token})
+	res, err := s.ReadC.ListRelationTuples(s.ctx(), &rts.ListRelationTuplesRequest{RelationQuery: q.Proto(), PageSize: int32(size), PageToken: token})
 	r := grpcResp(err)
 	if err != nil {
 		return r, nil
@@ -547,7 +559,7 @@ func (s *Sys) CheckREST(variant string, t Tuple, depth *int) (Resp, *bool) {
 }
 
 func (s *Sys) CheckGRPC(t Tuple, depth int) (Resp, *bool) {
-	res, err := s.Check.Check(s.Env.Ctx, &rts.CheckRequest{Tuple: t.Proto(), MaxDepth: int32(depth)})
+	res, err := s.Check.Check(s.ctx(), &rts.CheckRequest{Tuple: t.Proto(), MaxDepth: int32(depth)})
 	r := grpcResp(err)
 	if err != nil {
 		return r, nil
